@@ -121,6 +121,7 @@ func (c *controller) convergeBalancer(l log.Logger, key string, svc *v1.Service)
 	// It's possible the config mutated and the IP we have no longer
 	// makes sense. If so, clear it out and give the rest of the logic
 	// a chance to allocate again.
+	ipsRequested := false
 	if len(lbIPs) != 0 {
 		// This assign is idempotent if the config is consistent,
 		// otherwise it'll fail and tell us why.
@@ -149,6 +150,7 @@ func (c *controller) convergeBalancer(l log.Logger, key string, svc *v1.Service)
 			c.client.Errorf(svc, "LoadBalancerFailed", "invalid requested loadbalancer IPs: %s", err)
 			return ErrConverge
 		}
+		ipsRequested = len(desiredLbIPs) > 0
 		if len(desiredLbIPs) > 0 && !isEqualIPs(lbIPs, desiredLbIPs) {
 			level.Info(l).Log("event", "clearAssignment", "reason", "differentIPRequested", "msg", "user requested a different IP than the one currently assigned")
 			c.clearServiceState(key, svc)
@@ -159,7 +161,9 @@ func (c *controller) convergeBalancer(l log.Logger, key string, svc *v1.Service)
 	// If svc currently has 1 ip and policy PreferDualStack, try assigning ip from the missing family and same pool.
 	// A service with a single cluster IP is single stack even with the PreferDualStack policy: adding a second ip
 	// would be detected as a family change on the next sync, making the service flap between one and two ips.
-	if len(lbIPs) == 1 && familyPolicy == v1.IPFamilyPolicyPreferDualStack && len(svc.Spec.ClusterIPs) > 1 {
+	// Nor do we add an ip to a service that holds exactly the ip(s) the user requested: the result would not
+	// match the request anymore and the service would lose its ip on the next sync.
+	if len(lbIPs) == 1 && familyPolicy == v1.IPFamilyPolicyPreferDualStack && len(svc.Spec.ClusterIPs) > 1 && !ipsRequested {
 		level.Info(l).Log("event", "tryAssignAdditionalIP", "msg", "familyPolicy is PreferDualStack, trying to assign additional ip")
 		currentPool := c.ips.Pool(key)
 		// Try assigning a new ip with the missing stack and from the same pool.
